@@ -40,10 +40,10 @@
 (* ended -- an object handed out while its holder is still inside a        *)
 (* handler is rejected).                                                   *)
 (*                                                                         *)
-(* A rejected Dirty line is local: it is recorded in bad and validation    *)
+(* A rejected Dirty line is local: it is reported (@@DIRTY) and validation *)
 (* goes on with the next line, so that every surviving component is        *)
 (* reported on its own (known findings are matched per component).  Any    *)
-(* other rejected line skips to the next Case.                             *)
+(* other rejected line is recorded in bad and skips to the next Case.      *)
 (***************************************************************************)
 EXTENDS CtxLifecycle, Json, IOUtils
 
@@ -60,8 +60,9 @@ VARIABLES l,        \* next line to consume
           pkey,     \* <<conn, obj>> of that probe
           cnt,      \* Known lines seen in a cover case
           cm,       \* [mode, muts] of the current case
-          probed    \* connection slots on which a probe was served in the current case
-tvars == <<l, bad, ck, ok, tobj, tslot, pend, pallow, pkey, cnt, cm, probed>>
+          probed,   \* connection slots on which a probe was served in the current case
+          nd        \* rejected Dirty lines so far (their line numbers are printed, see MismatchDirty)
+tvars == <<l, bad, ck, ok, tobj, tslot, pend, pallow, pkey, cnt, cm, probed, nd>>
 
 Line == Trace[l]
 Empty == [x \in {} |-> 0]
@@ -72,7 +73,7 @@ Idle == /\ ck' = "" /\ ok' = "" /\ tobj' = Empty /\ tslot' = Empty /\ pend' = <<
         /\ cm' = NoCase /\ probed' = {}
 
 TraceInit == /\ kind = "Ctx" /\ obj = [o \in Objs |-> FreshObj] /\ slot = [s \in Slots |-> IdleSlot] /\ nmut = 0 /\ seen = {}
-             /\ l = 1 /\ bad = << >>
+             /\ l = 1 /\ bad = << >> /\ nd = 0
              /\ ck = "" /\ ok = "" /\ tobj = Empty /\ tslot = Empty /\ pend = << >> /\ pallow = {} /\ pkey = <<0, 0>> /\ cnt = 0
              /\ cm = NoCase /\ probed = {}
 
@@ -80,7 +81,7 @@ CaseKinds == Kinds \cup {"conc", "touch", "cover"}
 ObjKindOf(c) == IF c.kind \in {"Ctx", "conc"} THEN "Ctx" ELSE IF c.kind = "touch" THEN c.obj ELSE IF c.kind = "cover" THEN "Ctx" ELSE c.kind
 
 Is(e) == l <= Len(Trace) /\ Line.ev = e
-Step == l' = l + 1 /\ UNCHANGED <<bad, vars>>
+Step == l' = l + 1 /\ UNCHANGED <<bad, nd, vars>>
 NoPend == pend = << >>
 
 SlotSt(c) == IF c \in DOMAIN tslot THEN tslot[c].st ELSE "idle"
@@ -209,29 +210,33 @@ NextCase(k) == IF \E j \in k + 1 .. Len(Trace) : Trace[j].ev = "Case"
                THEN CHOOSE j \in k + 1 .. Len(Trace) : Trace[j].ev = "Case" /\ \A i \in k + 1 .. j - 1 : Trace[i].ev # "Case"
                ELSE Len(Trace) + 1
 
-(* a component survived recycling that the specification does not allow to survive: recorded, validation goes on *)
+(* a component survived recycling that the specification does not allow to survive: reported, validation goes on.
+   These rejections are printed at once (<<"@@DIRTY", line>>) instead of being accumulated in bad: while a known
+   finding makes every probe carry one, a state variable holding tens of thousands of line numbers would dominate
+   the cost of every step.  nd counts them. *)
 MismatchDirty ==
   /\ DirtyLine /\ Line.comp \notin pallow
-  /\ bad' = Append(bad, l) /\ l' = l + 1
+  /\ l' = l + 1 /\ nd' = nd + 1
   /\ pend' = Tail(pend)
-  /\ UNCHANGED <<vars, ck, ok, tobj, tslot, pallow, pkey, cnt, cm, probed>>
+  /\ UNCHANGED <<vars, bad, ck, ok, tobj, tslot, pallow, pkey, cnt, cm, probed>>
+  /\ PrintT(<<"@@DIRTY", l>>)
 
 Mismatch ==
   /\ l <= Len(Trace) /\ ~ENABLED Normal /\ ~DirtyLine
   /\ bad' = Append(bad, l)
   /\ l' = NextCase(l)
-  /\ Idle /\ UNCHANGED vars
+  /\ Idle /\ UNCHANGED <<vars, nd>>
 
 (* the recording stops in the middle of a history *)
 MismatchEOF ==
   /\ l = Len(Trace) + 1 /\ ck # ""
   /\ bad' = Append(bad, Len(Trace)) /\ l' = l
-  /\ Idle /\ UNCHANGED vars
+  /\ Idle /\ UNCHANGED <<vars, nd>>
 
 TraceNext == Normal \/ MismatchDirty \/ Mismatch \/ MismatchEOF
 
 (* a pooled object carries nothing of its past but Kept (the design invariant, on the recorded run) *)
 PoolCleanT == \A o \in DOMAIN tobj : tobj[o].st = "pooled" => tobj[o].cur = {} /\ tobj[o].stale \subseteq Kept
 
-Report == (l = Len(Trace) + 1 /\ ck = "") => PrintT(<<"@@BAD", bad, l - 1, Len(Trace)>>)
+Report == (l = Len(Trace) + 1 /\ ck = "") => PrintT(<<"@@BAD", bad, l - 1, Len(Trace)>>) /\ PrintT(<<"@@NDIRTY", nd>>)
 =============================================================================
